@@ -229,6 +229,31 @@ PROPS["C08"] = dict(
     assumptions=PROPS["C01"]["assumptions"],
 )
 
+def r_grid2(tier, seed):
+    n = {"quick": 400, "thorough": 8000}[tier]
+    return ["--mode", "grid", "--cases", str(n), "--ops", "14" if tier == "quick" else "40"]
+
+
+SEW_CLASSES = {"1": "sew/unsew topology differs from the corresponding link/unlink",
+               "2": "C04:unchanged-cell-value-changed", "3": "merged cell does not carry the merge of the old values",
+               "4": "split cells do not carry the split of the old value", "5": "value left under an identifier that stopped designating a cell",
+               "6": "call succeeded although the attribute law rejects the merge/split"}
+PROPS["C04"] = dict(
+    level="proof",
+    level_text="Coq: sew/unsew topology = link/unlink topology for every store (C04_sew_topology...), errors change nothing "
+               "(C06), and the executable specification of the data clauses (merged cells carry the merge under the new id, "
+               "unchanged cells keep their value, nothing stale, split mirror) built on the verified orbit closure is applied "
+               "to every implementation observation; the data clauses are proved for the model only through the correspondence "
+               "(partial, see DESIGN.md)",
+    technique="Coq proof (topology clause) + extracted Coq specification of the data clauses as oracle + correspondence",
+    families=[
+        Family("grid2", "core2", r_grid2, 1, [(6, "sew2_spec", SEW_CLASSES)]),
+        Family("core2-random", "core2", r_core2, 1, [(6, "sew2_spec", SEW_CLASSES)]),
+    ],
+    trusted=PROPS["C01"]["trusted"],
+    assumptions=PROPS["C01"]["assumptions"],
+)
+
 ALLOC_CLASSES = {"1": "allocation id or counts wrong", "2": "appended slot not blank", "3": "C18:stale-slot-on-reuse",
                  "4": "removal wrongly accepted or refused", "5": "unrelated state changed by allocation/removal",
                  "6": "reused slot not free or still flagged"}
